@@ -1,6 +1,6 @@
 (* Every node of a diff result wraps the data object of a node of t0 or t1;
-   consequently "equal data_id in the result" (= equal hash) means "equal data"
-   whenever the hashes of the two alphabets do not collide. *)
+   with its data_id; consequently "equal data_id in the result" means "equal
+   data" whenever equal data_ids imply equal data in the two inputs. *)
 From Coq Require Import List ZArith Bool Arith Lia Permutation.
 From NT Require Import Sx Rose ListFacts RoseFacts Diff DiffProofs DiffMore.
 Import ListNotations.
@@ -74,18 +74,18 @@ Theorem result_nodes_have_sources order ordered t0 t1 :
 Proof. cbn. apply reclass_src, compare_src. Qed.
 
 (* equal data_id in the result = equal data, when hashes do not collide *)
-Theorem result_did_is_data order ordered t0 t1 : hash_inj (pre_f t0 ++ pre_f t1) ->
+Theorem result_did_is_data order ordered t0 t1 : did_inj (pre_f t0 ++ pre_f t1) ->
   forall x y, In x (pre_f (snd (diff_with order ordered false t0 t1))) ->
               In y (pre_f (snd (diff_with order ordered false t0 t1))) ->
               rdid x = rdid y -> key x = key y.
 Proof.
   intros HH x y Hx Hy E. pose proof (result_nodes_have_sources order ordered t0 t1) as H. rewrite Forall_forall in H.
   destruct (H x Hx) as [sx [Hsx [Kx Dx]]]. destruct (H y Hy) as [sy [Hsy [Ky Dy]]].
-  rewrite Kx, Ky. apply HH; auto. rewrite Dx, Dy in E. now injection E.
+  rewrite Kx, Ky. apply HH; auto. congruence.
 Qed.
 
 (* the move pairs, in terms of the data objects *)
-Theorem moved_pairs_same_data order ordered t0 t1 : hash_inj (pre_f t0 ++ pre_f t1) ->
+Theorem moved_pairs_same_data order ordered t0 t1 : did_inj (pre_f t0 ++ pre_f t1) ->
   let f := snd (diff_with order ordered false t0 t1) in
   (forall x, In x (pre_f f) -> has_dc x MOVED_HERE = true ->
      exists y, In y (pre_f f) /\ has_dc y MOVED_TO = true /\ key y = key x) /\
@@ -103,15 +103,24 @@ Qed.
 (* the property's own wording of the domain: default-id trees over a   *)
 (* shared alphabet on which == and data_id agree                        *)
 (* ------------------------------------------------------------------ *)
-Definition default_ids (l : list rt) : Prop := forall x, In x l -> rdid x = DInt (hkey x).
+Definition default_ids (l : list rt) : Prop := forall x, In x l -> rdid x = DInt (i_hash (rinfo x)).
 Definition did_is_data (l : list rt) : Prop := forall x y, In x l -> In y l -> (key x = key y <-> rdid x = rdid y).
 
-Theorem default_id_domain t0 t1 :
-  sib_unique t0 -> sib_unique t1 ->
-  default_ids (pre_f t0 ++ pre_f t1) -> did_is_data (pre_f t0 ++ pre_f t1) ->
-  dom t0 t1 /\ hash_inj (pre_f t0 ++ pre_f t1).
+Lemma sib_unique_dsu f : sib_unique f -> did_is_data (pre_f f) -> dsu f.
 Proof.
-  intros S0 S1 Hd Ha. split.
+  intros [U V] Ha. split.
+  - apply (NoDup_map_transfer key rdid); [exact U|]. intros x y Hx Hy E. apply Ha; auto; now apply in_pre_f_top.
+  - intros p Hp. apply (NoDup_map_transfer key rdid); [now apply V|].
+    intros x y Hx Hy E. apply Ha; auto; eapply pre_f_child_closed; eauto.
+Qed.
+
+Theorem default_id_domain t0 t1 :
+  sib_unique t0 -> sib_unique t1 -> did_is_data (pre_f t0 ++ pre_f t1) ->
+  dom t0 t1 /\ did_inj (pre_f t0 ++ pre_f t1) /\ dsu t0 /\ dsu t1.
+Proof.
+  intros S0 S1 Ha. refine (conj _ (conj _ (conj _ _))).
   - apply dom_of_global; auto. intros x y Hx Hy. apply Ha; apply in_or_app; auto.
-  - intros x y Hx Hy E. apply Ha; auto. rewrite (Hd x Hx), (Hd y Hy). now rewrite E.
+  - intros x y Hx Hy E. now apply Ha.
+  - apply sib_unique_dsu; auto. intros x y Hx Hy. apply Ha; apply in_or_app; auto.
+  - apply sib_unique_dsu; auto. intros x y Hx Hy. apply Ha; apply in_or_app; auto.
 Qed.
